@@ -102,6 +102,9 @@ async def main():
               ('starmap',(), lambda: ai.starmap(A(lambda a,b:a+b), [(x,x) for x in xs]), lambda: itertools.starmap(lambda a,b:a+b, [(x,x) for x in xs])),
               ('zip_longest',(), lambda: ai.zip_longest(src(), [9], fillvalue='f'), lambda: itertools.zip_longest(xs,[9],fillvalue='f')),
               ('zip_longest0',(), lambda: ai.zip_longest(), lambda: itertools.zip_longest()),
+              ('zip_longest_fill_in_data',(), lambda: ai.zip_longest(src(), [0,1,2], fillvalue=0), lambda: itertools.zip_longest(xs,[0,1,2],fillvalue=0)),
+              ('zip_longest_none_in_data',(), lambda: ai.zip_longest(src(), [None, 1]), lambda: itertools.zip_longest(xs,[None, 1])),
+              ('zip_longest3',(), lambda: ai.zip_longest(src(), [7], src()), lambda: itertools.zip_longest(xs,[7],xs)),
               ('count',(), lambda: ai.count(2,3), lambda: itertools.count(2,3)),
               ('product2',(), lambda: ai.product(src(), [7,8]), lambda: itertools.product(xs,[7,8])),
             ]
